@@ -1392,7 +1392,8 @@ fn unqualify(e: &Ex) -> Ex {
 // ----------------------------------------------------------- end to end ----
 /// `QueryNode::query_stream_filtered` with a topic subscription of a real channel and no
 /// historical data: the stream must carry, per flushed batch in flush order, what the
-/// engine's evaluation of the clause keeps (all generated timestamps lie after "now").
+/// engine's evaluation of the clause keeps among the rows after "now" (timestamps are
+/// generated either around the year 2096 or in 1970).
 fn run_e2e(rt: &tokio::runtime::Runtime, rng: &mut Rng, report: &mut Report, n: usize) {
     use cardinalsin::metadata::LocalMetadataClient;
     use cardinalsin::query::{QueryConfig, QueryNode};
@@ -1410,7 +1411,12 @@ fn run_e2e(rt: &tokio::runtime::Runtime, rng: &mut Rng, report: &mut Report, n: 
             for (n, c) in b.cols.iter_mut() {
                 if n == "timestamp" {
                     let v: Vec<Option<i64>> = match c {
-                        Col::I(v) | Col::T(v) => v.iter().enumerate().map(|(i, x)| Some(x.filter(|t| *t > future - 1_000_000).unwrap_or(future + i as i64))).collect(),
+                        // rows either far after "now" (kept) or long before it (must be masked by the merge timestamp)
+                        Col::I(v) | Col::T(v) => v.iter().enumerate().map(|(i, x)| Some(match x {
+                            Some(t) if *t > future - 1_000_000 => *t,
+                            Some(_) => 1_000 + i as i64,
+                            None => future + i as i64,
+                        })).collect(),
                         _ => vec![],
                     };
                     *c = Col::I(v);
@@ -1448,7 +1454,8 @@ fn run_e2e(rt: &tokio::runtime::Runtime, rng: &mut Rng, report: &mut Report, n: 
                     continue;
                 }
                 let _ = channel.send(TopicBatch { batch: b.to_arrow(), metadata: BatchMetadata { shard_id: "s".into(), tenant_id: 1, metrics: vec![] } });
-                let o = run_filter_impl_engine_only(&FCase { merge: 10, wh: Some(wh.clone()), batch: b.clone() }).await;
+                // any instant between the real "now" and `future` separates the two groups of rows
+                let o = run_filter_impl_engine_only(&FCase { merge: future - 2_000_000, wh: Some(wh.clone()), batch: b.clone() }).await;
                 match o {
                     Ok(s) => {
                         if s != "NONE" {
